@@ -6,7 +6,6 @@ CONSTANT Aligns = {16, 64}
 CONSTANT Eqs = {0}
 CONSTANT MaxAddr = 100000
 CONSTANT AddrStep = 1
-PROPERTY Refines
 INVARIANT InvNoOverlapLive
 INVARIANT InvAligned
 INVARIANT InvTotalOK
